@@ -22,7 +22,7 @@ def fuzz(pkg, target, secs, parallel=8):
 
 CHECKS = {
     "C01": {"units": [rapid("freex", "TestC01Free", 1500, 2500, 16), rapid("csyncx", "TestC01", 10000, 100000)]},
-    "C02": {"units": [rapid("csyncx", "TestC02", 10000, 100000)]},
+    "C02": {"units": [rapid("freex", "TestC02Free", 1000, 1500, 16), rapid("csyncx", "TestC02", 10000, 100000)]},
     "C03": {"units": [rapid("freex", "TestC03Free", 1000, 1500, 16), rapid("bcastx", "TestC03", 10000, 100000)]},
     "C04": {"units": [rapid("routinex", "TestC04", 10000, 60000)]},
     "C05": {"units": [rapid("freex", "TestC05Free", 300, 500, 16), rapid("routinex", "TestC05", 8000, 60000)]},
@@ -32,7 +32,7 @@ CHECKS = {
     "C06": {"units": [rapid("keyedx", "TestC06Keyed", 6000, 40000), rapid("keyedx", "TestC06RefCount", 6000, 40000)]},
     "C07": {"units": [rapid("keyedx", "TestC07", 8000, 50000)]},
     "C08": {"units": [rapid("refcountx", "TestC08", 8000, 50000)]},
-    "C09": {"units": [rapid("refcountx", "TestC09", 8000, 50000)]},
+    "C09": {"units": [rapid("freex", "TestC09Free", 1000, 1500, 16), rapid("refcountx", "TestC09", 8000, 50000)]},
     "C10": {"units": [rapid("refcountx", "TestC10", 12000, 60000)]},
     "C11": {"units": [rapid("freex", "TestC11Free", 1500, 2500, 16), rapid("promisex", "TestC11", 10000, 80000)]},
     "C15": {"units": [rapid("freex", "TestC15Free", 1000, 2000, 16), rapid("ccontx", "TestC15", 10000, 80000)]},
